@@ -16,9 +16,12 @@ import time
 
 from vlib import core
 from vlib.core import GOENV, Internal
-from vlib.c05 import build_owrunfacts, _repo, race_probe
+from vlib.c05 import build_owrunfacts, _repo, race_probe, _probe_families
 
-CELL_RULES = ("callee-global-write", "shared-write", "shared-loc", "shared-arg", "loop-var", "join")
+# "cell-coverage": a worker pool whose channel of cell indices is not provably filled with exactly 0..N-1 / closed / drained;
+# "unsupported": a construct in the closure (or in a function it calls with something shared) that the extractor does not follow —
+# the footprint of that site is then not established
+CELL_RULES = ("callee-global-write", "shared-write", "shared-loc", "shared-arg", "loop-var", "join", "cell-coverage", "unsupported")
 PURITY_RULES = ("callee-global-write",)
 
 
@@ -38,6 +41,9 @@ def purity_step(rules, tag):
             name = "structural rule %s violated in %s" % (v["rule"], v["file"])
             problems.append({"kind": "proof-obligation", "name": name, "detail": v["detail"]})
         if hits:
+            # the real code may now crash the harness generator itself (a goroutine panic cannot be recovered): such a family is
+            # dropped from this run and its crash recorded as a failing input, instead of ending as an internal error
+            _probe_families(check, ctx)
             race_probe(ctx, hits, tag)
         ctx["info"]["runfacts_" + tag] = {
             "rules": list(rules), "sites": len(facts["sites"]), "callees_scanned": sum(s["callees_scanned"] for s in facts["sites"]),
